@@ -265,4 +265,48 @@ theorem lr_order {o : Ords} (ho : o.OK) {b : Bool} {es : List (Tid × Ev)} {s : 
       have hinv : Inv s1 := inv_reachable ⟨b, es, h1⟩
       exact last_order (hinv_run ho h) (step_cls hinv h2) hi'' hc
 
+/-! ### the mapped trace has no data race -/
+
+theorem toHB_wr {o : Ords} {e : Ev} {y : HB.Loc} (h : toHB o e = .wr y) : ∃ x, e.wrS = some x ∧ copyLoc x = y := by
+  cases e <;> simp [toHB] at h <;> exact ⟨_, rfl, h⟩
+
+theorem toHB_rd {o : Ords} {e : Ev} {y : HB.Loc} (h : toHB o e = .rd y) : ∃ x, e.rdS = some x ∧ copyLoc x = y := by
+  cases e <;> simp [toHB] at h <;> exact ⟨_, rfl, h⟩
+
+theorem toHB_acc {o : Ords} {e : Ev} {y : HB.Loc} (h : (toHB o e).accesses y) : ∃ x, Touches e x ∧ copyLoc x = y := by
+  rcases h with h | h
+  · obtain ⟨x, h1, h2⟩ := toHB_rd h; exact ⟨x, .inr h1, h2⟩
+  · obtain ⟨x, h1, h2⟩ := toHB_wr h; exact ⟨x, .inl h1, h2⟩
+
+/-- a conflict of the mapped trace is a conflict of the model events -/
+theorem lr_conf_of_hb {o : Ords} {es : List (Tid × Ev)} {y : HB.Loc} {i j : Nat}
+    (hc : HB.ConflictOn (hbTrace o es) y i j) :
+    ∃ u t ei ej, es[i]? = some (u, ei) ∧ es[j]? = some (t, ej) ∧ LRConf ei ej := by
+  obtain ⟨u, t, hi, hj, h1, h2, ai, aj, hw⟩ := hc
+  obtain ⟨ei, gi, mi⟩ := hbTrace_get_inv h1
+  obtain ⟨ej, gj, mj⟩ := hbTrace_get_inv h2
+  subst mi; subst mj
+  refine ⟨u, t, ei, ej, gi, gj, ?_⟩
+  rcases hw with hw | hw
+  · obtain ⟨x, w1, w2⟩ := toHB_wr hw
+    obtain ⟨x', t1, t2⟩ := toHB_acc aj
+    have : x' = x := copyLoc_inj (t2.trans w2.symm)
+    subst this
+    exact ⟨x', .inl ⟨w1, t1⟩⟩
+  · obtain ⟨x, w1, w2⟩ := toHB_wr hw
+    obtain ⟨x', t1, t2⟩ := toHB_acc ai
+    have : x' = x := copyLoc_inj (t2.trans w2.symm)
+    subst this
+    exact ⟨x', .inr ⟨t1, w1⟩⟩
+
+theorem lr_hb {o : Ords} (ho : o.OK) {b : Bool} {es : List (Tid × Ev)} {s : St} (h : run (init b) es = some s)
+    {y : HB.Loc} {i j : Nat} (hij : i < j) (hc : HB.ConflictOn (hbTrace o es) y i j) : HB.HB (hbTrace o es) i j := by
+  obtain ⟨u, t, ei, ej, gi, gj, hcf⟩ := lr_conf_of_hb hc
+  exact lr_order ho h hij gi gj hcf
+
+theorem lr_no_race {o : Ords} (ho : o.OK) {b : Bool} {es : List (Tid × Ev)} {s : St} (h : run (init b) es = some s) :
+    ¬ HB.Race (hbTrace o es) := by
+  intro ⟨i, j, hij, ⟨y, hc⟩, hn⟩
+  exact hn (lr_hb ho h hij hc)
+
 end ConcVerif.LR
